@@ -5,6 +5,8 @@ package main
 //   idx <name>                     index for subsequent batches (default vidx)
 //   cfg card <n>                   writer.SetCardinalityLimit
 //   cfg pqs <0|1>                  config.SetPQSEnabled (persistent-query results; the testing config has them ON)
+//   cfg pqdrain <0|1>              1 (default): pqwait also hands the queued back-fill requests to the writer (overlay hook); 0: only the engine's own listener does
+//   pqstate                        prints "#pqstate pqmr=<n> sfm=<m> stuck=<k>" (see e2ePqState)
 //   pqwait                         wait until no background persistent-query write (search.writePqmrFilesWrapper) is running,
 //                                  then hand the queued back-fill requests to the writer (VerifDrainPqsRequests); prints nothing
 //   batch <hexjson> <hexjson> ...  one ProcessIndexRequestPle call
@@ -22,6 +24,7 @@ import (
 	"encoding/json"
 	"fmt"
 	"os"
+	"path/filepath"
 	"runtime"
 	"strconv"
 	"strings"
@@ -51,7 +54,48 @@ func e2ePqWait() {
 		}
 		time.Sleep(time.Millisecond)
 	}
-	writer.VerifDrainPqsRequests()
+	if e2ePqDrain {
+		writer.VerifDrainPqsRequests()
+	}
+}
+
+// e2ePqDrain: hand the queued back-fill requests to the writer through the overlay hook after every wait (default).  With
+// `cfg pqdrain 0` nothing but the engine's own listener goroutine (writer.listenBackFillAndEmptyPQSRequests) reads the queue.
+var e2ePqDrain = true
+
+// e2ePqState: "#pqstate pqmr=<n> sfm=<m> stuck=<k>" — n persistent-query result files on disk, m (segment, pqid) pairs recorded
+// in the .sfm files, k goroutines blocked while queueing a back-fill request.  The engine's listener persists the requests
+// when 100 (PQS_FLUSH_SIZE) have arrived or every 10 s (PQS_TICKER): waits up to 4 s for m ≥ ⌊n/100⌋·100 and k = 0.
+func e2ePqState(dir string) string {
+	var npq, nsfm, stuck int
+	buf := make([]byte, 1<<22)
+	deadline := time.Now().Add(4 * time.Second)
+	for {
+		npq, nsfm = 0, 0
+		_ = filepath.Walk(dir, func(p string, info os.FileInfo, err error) error {
+			if err != nil || info.IsDir() {
+				return nil
+			}
+			if strings.HasSuffix(p, ".pqmr") {
+				npq++
+			} else if strings.HasSuffix(p, ".sfm") {
+				var m struct {
+					P map[string]bool `json:"pqids"`
+				}
+				if b, err := os.ReadFile(p); err == nil && json.Unmarshal(b, &m) == nil {
+					nsfm += len(m.P)
+				}
+			}
+			return nil
+		})
+		n := runtime.Stack(buf, true)
+		stuck = bytes.Count(buf[:n], []byte("writer.AddToBackFillAndEmptyPQSChan(")) + bytes.Count(buf[:n], []byte("writer.AddToEmptyPqmetaChan(")) + bytes.Count(buf[:n], []byte("writer.RemoveSegmentFromEmptyPqmeta("))
+		if (stuck == 0 && nsfm >= npq/100*100) || time.Now().After(deadline) {
+			break
+		}
+		time.Sleep(20 * time.Millisecond)
+	}
+	return fmt.Sprintf("#pqstate pqmr=%d sfm=%d stuck=%d", npq, nsfm, stuck)
 }
 
 func e2eWorkerMain() {
@@ -86,8 +130,14 @@ func e2eWorkerMain() {
 			if f[1] == "pqs" {
 				config.SetPQSEnabled(f[2] == "1")
 			}
+			if f[1] == "pqdrain" {
+				e2ePqDrain = f[2] == "1"
+			}
 		case "pqwait":
 			e2ePqWait()
+		case "pqstate":
+			fmt.Fprintln(out, e2ePqState(dir))
+			out.Flush()
 		case "sleep": // sleep <ms> (manual probes only)
 			ms, _ := strconv.Atoi(f[1])
 			time.Sleep(time.Duration(ms) * time.Millisecond)
